@@ -2,6 +2,7 @@
 under a deterministic step budget (S7), hash values from a simulator-owned,
 collision-rich universe (S6)."""
 import io
+import os
 
 from ..core import BudgetExceeded, HarnessError, Scenario, Violation
 from .. import seams
@@ -41,7 +42,17 @@ class QuotientWorld(Scenario):
             "uni": uni, "keyed": rng.chance(1, 3), "steps": rng.between(5, self.max_steps),
             "avoid_full": rng.chance(1, 2),
         }
-        if rng.chance(1, 5):
+        if os.environ.get("DSIM_TIER") == "thorough" and rng.chance(1, 5):
+            # larger tables and longer histories in the thorough tier
+            q = rng.choice((6, 7, 8))
+            r = 32 - q
+            size = 1 << q
+            uni = set()
+            while len(uni) < rng.choice((60, 120, 250)):
+                quo = size - 1 - rng.below(4) if rng.chance(1, 3) else rng.below(size)
+                uni.add((quo << r) | rng.choice((0, 1, 2, 3, 1 << (r - 1), (1 << r) - 1, rng.below(1 << r))))
+            cfg.update({"q": q, "uni": sorted(uni), "steps": rng.between(80, 240)})
+        elif rng.chance(1, 5):
             # full-table pressure: a small table that cannot grow and a universe of 2-4x its size, so that the run
             # spends its time around 100 % load (whole-table clusters, removal without any empty slot)
             q = rng.choice((3, 3, 4))
